@@ -29,6 +29,9 @@ func init() {
 	// Silence the code under test.
 	logrus.SetOutput(io.Discard)
 	logrus.SetLevel(logrus.PanicLevel)
+	// Run the code under test in a process whose local time zone is not UTC (the
+	// sandbox itself is UTC): snapshot names, cutoffs and ages must not depend on it.
+	time.Local = time.FixedZone("VRF", -(7*3600 + 1800))
 }
 
 // Obs collects observations about one executed case.
